@@ -73,6 +73,13 @@ theorem func_name_shape :
     Gen.Funcs.funcNameOperatorFallbackIsResolve = true ∧ Gen.Funcs.funcNameUnboundIsErrorObject = true ∧
     Gen.Funcs.callsPassCallFlag = true ∧ Gen.Funcs.hostFunctionChecksArguments = true := by decide
 
+/-- **the binding decisions are taken per program** (round 3): `func_name` decides — dotted text of a built-in, run-time lookup
+through `host_function`, or the constant "unbound function" error — by consulting the activation of the program being
+built, and it does so in Phase 1; `Transpiler.transpile` runs Phase 1 on every call, unconditionally, so an AST that was
+already packaged into another program (`Environment.compile()` once, `Environment.program()` many times) is decorated
+afresh.  This is what lets `World.run` treat a program as (`base`, supplied functions, expression), without the AST's past. -/
+theorem binding_decided_per_program : Gen.Funcs.transpilePhase1Unconditional = true := by decide
+
 /-- `?:` visits one branch in the interpreter and wraps three operands in `result()` in the transpiled template;
 `||`/`&&` visit both operands -/
 theorem cond_shape :
